@@ -24,6 +24,9 @@ MAP = {
     "motion/motionconfig.go": ["C07", "C11"],
     "throttle/throttled_recorder.go": ["C05", "C06", "C11", "C17"],
     "throttle/config.go": ["C05", "C06"],
+    "throttle/throttled_event_recorder.go": ["C05", "C17", "C13"],
+    "cmd/thermal-recorder/service.go": ["C16", "C13"],
+    "leptondController/leptondController.go": ["C13", "C16", "C11"],
     "loglimiter/loglimiter.go": ["C20"],
     "headers/headerinfo.go": ["C14", "C11", "C13"],
     "headers/headers.go": ["C14"],
